@@ -47,6 +47,26 @@ def gen_case(r, shape):
         lo, hi = sorted([r.choice(big), r.choice(big)])
         items = [r.choice([5, 0, -1, 2**63 - 1, -(2**63), 2**63 - 2, 2**62, True, 12]) for _ in range(r.between(1, 4))]
         return Leaf(kind, pre, name, (), {"lower": lo, "upper": hi}), (items if r.coin() else {f"k{i}": v for i, v in enumerate(items)})
+    if kind == "value" and pre is None and name in G.VARPOS_KEYS + G.N_OF + G.ONE_OF_KW and r.pct() < 8:
+        # keys that an item really has, with an UNHASHABLE element among them (wherever it stands, counting the keys
+        # the item contains is then undefined for a mapping item)
+        present = [G.key(r) for _ in range(r.between(1, 2))]
+        item = {k: G.scalar(r) for k in present}
+        odd = r.choice([[1], {"a": 1}, [], [present[0]]])
+        keys = list(present)
+        keys.insert(r.below(len(keys) + 1), odd)
+        if r.coin():
+            keys.append(G.key(r))
+        if isinstance(doc, list):
+            doc.insert(r.below(len(doc) + 1), item)
+        else:
+            doc[r.choice(["it", "n"])] = item
+        if name in G.VARPOS_KEYS:
+            return Leaf(kind, pre, name, tuple(keys), {}), doc
+        kw = {"keys": keys}
+        if name in G.N_OF:
+            kw = {"N": r.between(0, 2), "keys": keys}
+        return Leaf(kind, pre, name, (), kw), doc
     if name == "items_contain" and pre is None and kind == "value" and r.pct() < 10:
         # an expected key that is spelled like a parameter name somewhere inside the library, present in an item
         kname = r.choice(["trial_dict", "value", "datum", "kwargs", "args", "data", "key"] + build.param_names())
